@@ -301,7 +301,7 @@ func Sweep(r *report.Run, cfgs []Config, parallel int) ([]Result, map[string]str
 			defer wg.Done()
 			defer func() { <-sem }()
 			j, _ := json.Marshal(cfg)
-			pr := proc.Run(logDir, 900, nil, "atom-worker", string(j))
+			pr := proc.Run(logDir, 2400, nil, "atom-worker", string(j))
 			var got []Result
 			sc := bufio.NewScanner(strings.NewReader(string(pr.Out())))
 			sc.Buffer(make([]byte, 1<<20), 1<<26)
